@@ -1,0 +1,105 @@
+// Copyright 2020 YOUCHAIN FOUNDATION LTD.
+// Verification contracts (comment-only, compiled only with the "verif" build tag; read by /verif/govc).
+
+//go:build verif
+// +build verif
+
+package core
+
+// Contracts for protocol_version_processor.go — property C12
+// "Protocol version changes only by a quorum of block votes, at the announced round".
+
+//@ type VState struct { num, cur, next, appr, vb, so: int }
+
+//@ spec func vs(h: *types.Header) VState =
+//@     VState{ big(h.Number), h.CurrVersion, h.NextVersion, h.NextApprovals, h.NextVoteBefore, h.NextSwitchOn }
+
+// Symbolic view of the protocol table params.Versions: the results hold for every table.
+//@ spec func known(v: int) bool = in(v, params.Versions)
+//@ spec func VoteRounds(v: int) int = params.Versions[v].UpgradeVoteRounds
+//@ spec func Threshold(v: int) int = params.Versions[v].UpgradeThreshold
+//@ spec func MinWait(v: int) int = params.Versions[v].MinUpgradeWaitRounds
+//@ spec func MaxWait(v: int) int = params.Versions[v].MaxUpgradeWaitRounds
+//@ spec func Approved(v: int) int = params.Versions[v].ApprovedUpgradeVersion
+//@ spec func WaitOf(v: int) int = params.Versions[v].UpgradeWaitRounds
+
+//@ spec func cleared(c: VState) bool = c.next == 0 && c.appr == 0 && c.vb == 0 && c.so == 0
+//@ spec func cfgOK(v: int) bool = VoteRounds(v) >= 1 && 1 <= MinWait(v) && MinWait(v) <= MaxWait(v)
+
+// --- the transition relation, sentence by sentence from the property statement -----------------
+//@ spec func swNow(p: VState, n: int) bool = p.so == n
+//@ spec func stepSwitch(p: VState, c: VState, n: int) bool = c.cur == p.next && cleared(c)
+//@ spec func stepIdle(p: VState, c: VState) bool = p.next == 0 && cleared(c)
+//@ spec func stepPropose(p: VState, c: VState, n: int) bool = p.next == 0 && c.next != 0 && c.appr == 1 &&
+//@         c.vb == n + VoteRounds(p.cur) && c.vb + MinWait(p.cur) <= c.so && c.so <= c.vb + MaxWait(p.cur)
+//@ spec func stepOngoing(p: VState, c: VState, n: int) bool = p.next != 0 && c.next == p.next && c.vb == p.vb && c.so == p.so &&
+//@         (c.appr == p.appr || (c.appr == p.appr + 1 && n < p.vb)) && (n >= p.vb ==> p.appr >= Threshold(p.cur))
+//@ spec func stepFail(p: VState, c: VState, n: int) bool = p.next != 0 && cleared(c) && n == p.vb && p.appr < Threshold(p.cur)
+//@ spec func step(p: VState, c: VState, n: int) bool =
+//@     if swNow(p, n) then stepSwitch(p, c, n)
+//@     else c.cur == p.cur && (stepIdle(p, c) || stepPropose(p, c, n) || stepOngoing(p, c, n) || stepFail(p, c, n))
+
+// Chain invariant: what every header reachable through `step` from a header without proposal satisfies.
+//@ spec func inv(h: VState) bool =
+//@     if h.next == 0 then h.appr == 0 && h.vb == 0 && h.so == 0
+//@     else h.num < h.so && h.vb + MinWait(h.cur) <= h.so && 1 <= h.appr && h.appr <= VoteRounds(h.cur) &&
+//@          h.appr <= h.num - (h.vb - VoteRounds(h.cur)) + 1 && h.num >= h.vb - VoteRounds(h.cur) &&
+//@          (h.num >= h.vb ==> h.appr >= Threshold(h.cur))
+
+//@ lemma [C12.chain-inv] forall p: VState, c: VState :: cfgOK(p.cur) && inv(p) && p.num >= 0 && c.num == p.num + 1 && step(p, c, c.num) && (c.cur != p.cur ==> cfgOK(c.cur)) ==> inv(c)
+//@ lemma [C12.safe-switch] forall p: VState, c: VState :: cfgOK(p.cur) && inv(p) && p.num >= 0 && c.num == p.num + 1 && step(p, c, c.num) && c.cur != p.cur
+//@         ==> c.num == p.so && p.next == c.cur && p.appr >= Threshold(p.cur) && c.num >= p.vb + MinWait(p.cur)
+//@ lemma [C12.one-per-block] forall p: VState, c: VState :: step(p, c, c.num) && c.next != 0 && p.next != 0 ==> c.appr <= p.appr + 1
+//@ lemma [C12.window-only] forall p: VState, c: VState :: step(p, c, c.num) && c.next != 0 && p.next != 0 && c.appr > p.appr ==> c.num < p.vb
+//@ lemma [C12.genesis-inv] forall g: VState :: cleared(g) ==> inv(g)
+
+//@ func VerifyYouVersionState props C12
+//@ panics none
+//@ requires prev != nil && curr != nil
+//@ requires prev.Number != nil && curr.Number != nil
+//@ requires 1 <= big(curr.Number) && big(curr.Number) < 2^62
+//@ requires known(prev.CurrVersion) ==> VoteRounds(prev.CurrVersion) < 2^32 && MaxWait(prev.CurrVersion) < 2^32 && MinWait(prev.CurrVersion) < 2^32
+//@ requires prev.NextApprovals < 2^64 - 1      // implied by the chain invariant (appr <= VoteRounds); excludes only the wrap of appr+1
+//@ let n = big(curr.Number)
+//@ modifies nothing
+//@ ensures [cur]           err == nil && !swNow(vs(prev), n) ==> curr.CurrVersion == prev.CurrVersion
+//@ ensures [switch]        err == nil &&  swNow(vs(prev), n) ==> stepSwitch(vs(prev), vs(curr), n)
+//@ ensures [idle]          err == nil && !swNow(vs(prev), n) && prev.NextVersion == 0 && curr.NextVersion == 0 ==> cleared(vs(curr))
+//@ ensures [propose-range] err == nil && !swNow(vs(prev), n) && prev.NextVersion == 0 && curr.NextVersion != 0 ==> stepPropose(vs(prev), vs(curr), n)
+//@ ensures [one-approval]  err == nil && !swNow(vs(prev), n) && prev.NextVersion != 0 && curr.NextVersion != 0
+//@                             ==> curr.NextApprovals == prev.NextApprovals || curr.NextApprovals == prev.NextApprovals + 1
+//@ ensures [window]        err == nil && !swNow(vs(prev), n) && prev.NextVersion != 0 && curr.NextVersion != 0
+//@                             ==> (curr.NextApprovals == prev.NextApprovals + 1 ==> n < prev.NextVoteBefore) &&
+//@                                 (n >= prev.NextVoteBefore ==> prev.NextApprovals >= Threshold(prev.CurrVersion))
+//@ ensures [vb-fixed]      err == nil && !swNow(vs(prev), n) && prev.NextVersion != 0 && curr.NextVersion != 0 ==> curr.NextVoteBefore == prev.NextVoteBefore
+//@ ensures [so-fixed]      err == nil && !swNow(vs(prev), n) && prev.NextVersion != 0 && curr.NextVersion != 0
+//@                             ==> curr.NextSwitchOn == prev.NextSwitchOn && curr.NextVersion == prev.NextVersion
+//@ ensures [fail]          err == nil && !swNow(vs(prev), n) && prev.NextVersion != 0 && curr.NextVersion == 0 ==> stepFail(vs(prev), vs(curr), n)
+//@ ensures [step]          err == nil ==> step(vs(prev), vs(curr), n)
+//@ ensures [complete]      cfgOK(prev.CurrVersion) && inv(vs(prev)) && known(prev.CurrVersion) && (swNow(vs(prev), n) ==> known(curr.CurrVersion)) &&
+//@                             big(prev.Number) + 1 == n && step(vs(prev), vs(curr), n) ==> err == nil
+
+// The block builder: the header it derives from any parent satisfying the chain invariant is a `step`
+// (hence, by [complete] above, accepted by the verifier): second sentence of the property.
+//@ spec func vsAt(h: *types.Header, n: int) VState =
+//@     VState{ n, h.CurrVersion, h.NextVersion, h.NextApprovals, h.NextVoteBefore, h.NextSwitchOn }
+
+//@ func ProcessYouVersionState props C12
+//@ panics none
+//@ requires prev != nil && curr != nil ==> prev != curr
+//@ requires prev != nil ==> prev.Number != nil && 0 <= big(prev.Number) && big(prev.Number) + 1 < 2^62
+//@ requires prev != nil && known(prev.CurrVersion) ==> VoteRounds(prev.CurrVersion) < 2^32 && MaxWait(prev.CurrVersion) < 2^32 && MinWait(prev.CurrVersion) < 2^32
+//@ requires prev != nil ==> cfgOK(prev.CurrVersion) && inv(vs(prev))
+//@ requires curr != nil ==> curr.NextVersion == 0 && curr.NextApprovals == 0 && curr.NextVoteBefore == 0 && curr.NextSwitchOn == 0   // a fresh header
+//@ modifies curr.CurrVersion, curr.NextVersion, curr.NextApprovals, curr.NextVoteBefore, curr.NextSwitchOn
+//@ ensures [step]   result == nil ==> step(old(vs(prev)), vsAt(curr, old(big(prev.Number)) + 1), old(big(prev.Number)) + 1)
+//@ ensures [errs]   result != nil ==> prev == nil || curr == nil || !known(prev.CurrVersion) ||
+//@                     (prev.NextVersion == 0 && Approved(prev.CurrVersion) > 0 &&
+//@                        (!known(Approved(prev.CurrVersion)) || WaitOf(Approved(prev.CurrVersion)) > MaxWait(prev.CurrVersion)))
+//@ ensures [err-unchanged] result != nil ==> curr == nil || (curr.CurrVersion == old(curr.CurrVersion) && curr.NextVersion == 0)
+
+//@ func clearUpgradeState props C12
+//@ panics none
+//@ requires header != nil
+//@ modifies header.NextVersion, header.NextApprovals, header.NextVoteBefore, header.NextSwitchOn
+//@ ensures header.NextVersion == 0 && header.NextApprovals == 0 && header.NextVoteBefore == 0 && header.NextSwitchOn == 0
